@@ -142,7 +142,7 @@ def core_check(pid: str, *, f_filter=None, cfgs=("A",), quick_stride=8, quick_ke
                 tlc.cleanup(res)
     if traces:
         from .. import trace_core
-        trace_core.validate(chk, traces[0 if chk.quick else 1], flags=trace_flags, sessions=120 if chk.quick else 1500)
+        trace_core.validate(chk, traces[0 if chk.quick else 1], flags=trace_flags, sessions=120 if chk.quick else 400)
     if extra:
         extra(chk)
     return chk
